@@ -79,6 +79,14 @@ var props = map[string]*propSpec{
 		QuickBudget:    55 * time.Second,
 		ThoroughBudget: 20 * time.Minute,
 	},
+	"C10": {
+		Level: "fault_enumeration",
+		Rule: "per baseline (configuration x 0-3 in-flight RPCs kept open by handler sleeps x schedule) the fault-free run reports its N frames; graceful shutdown (InitiateShutdown / GracefulStop in its own goroutine) is then initiated at every frame boundary k (thorough; quick: stratified sample), 1-4 further RPCs are attempted afterwards (directly and through the pooled channel), the run is driven to final quiescence, then Stop is called; " +
+			"non-trivial = shutdown was initiated while at least one RPC was in flight; distinct = distinct schedule digests",
+		Families:       []famPlan{{Family: "graceful", Weight: 3, Enum: true, EnumCauses: 2, EnumQuick: 12}, {Family: "graceful", Weight: 1}},
+		QuickBudget:    55 * time.Second,
+		ThoroughBudget: 20 * time.Minute,
+	},
 	"C14": {
 		Level: "exploration",
 		Rule: "every run ends with a drain to final quiescence (table sizes probed through the verif accessors) and a full shutdown (every tunnel ended, every context cancelled, all timers fired) after which any goroutine started by the library that is still alive is a leak; " +
